@@ -107,6 +107,18 @@ def run(ctx, only=None):
     if not any(o.rule == "R4" and not o.ok for o in ctx.obligations):
         ctx.ob("R4", "no-ambient", "validators/verifiers", "no clock, environment, randomness, locale, filesystem or stdin read is reachable from the %d pure anchors" % len(pure_anchors(prog)), True)
 
+    # the file helpers read the file system by design, but nothing else of the environment: what
+    # they load must not depend on locale, environment variables, clock or randomness
+    for q in ("common.load_metadata_from_file", "common.write_metadata_to_file", "common.keyfiles_to_bytes", "common.keyfiles_to_keys"):
+        if q not in prog.funcs:
+            continue
+        fi = prog.func(q)
+        for what, site, via in fx.ambient(fi, None):
+            if what in ("builtin:open",) or what.startswith("ext:os.path") or what.startswith("ext:os.stat"):
+                continue
+            ctx.ob("R4", "ambient|%s|%s|%s" % (q, what, site.key()), site.loc(), "%s depends on ambient state other than the named file (%s) via %s: the value loaded, hence every verdict on it, varies with the process environment" % (q, what.split(":", 1)[-1], " -> ".join(via)), False)
+        ctx.count("R4.file_helpers")
+
     # ---- R5 import closure
     chains = {}
     for fi, b in walked:
@@ -126,25 +138,7 @@ def run(ctx, only=None):
     sub = ctx.sub("R6") if hasattr(ctx, "sub") else ctx
     _print_sinks(sub)
 
-    # ---- R7 deep copy on wrapping
-    sm = eng.walk("signing.wrap_as_signable")
-    obj = P(sm.params[0])
-    rets = [p for p in sm.paths if p.kind == "return"]
-    ok = bool(rets)
-    why = ""
-    for p in rets:
-        v = p.value
-        if not (is_lit(v, "dict") and {k for k, _v in v[2]} == {C("signatures"), C("signed")}):
-            ok, why = False, "returns %s, not a fresh two-field dict" % show(v)[:80]
-            break
-        d = dict(v[2])
-        if not payload_is_isolated(p, d[C("signed")], obj):
-            ok, why = False, "payload is %s, not copy.deepcopy(argument): later changes to either side affect the other" % show(d[C("signed")])[:80]
-            break
-        if not (is_lit(d[C("signatures")], "dict") and len(d[C("signatures")][2]) == 0):
-            ok, why = False, "signatures is not a fresh empty dict"
-            break
-    ctx.ob("R7", "wrap-deepcopy", fn_site(eng, sm).loc(), "wrap_as_signable " + ("returns {'signatures': {}, 'signed': deepcopy(obj)} on every path" if ok else why), ok)
+    wrap_isolation(ctx, "R7")
 
     # ---- fixtures: every zero-count detector must fire on the positive examples
     _fixtures(ctx)
@@ -172,3 +166,28 @@ def _fixtures(ctx):
         raise AnalysisError("C12 fixture self-check failed: detector(s) did not fire on the positive examples: " + ", ".join(missing))
     ctx.info["fixture_detectors_fired"] = sorted(need)
     ctx.count("fixtures.detectors", len(need))
+
+
+def wrap_isolation(ctx, rule):
+    """wrap_as_signable returns a fresh two-field dict whose payload shares no mutable state with
+    its argument"""
+    eng = ctx.eng
+    # ---- R7 deep copy on wrapping
+    sm = eng.walk("signing.wrap_as_signable")
+    obj = P(sm.params[0])
+    rets = [p for p in sm.paths if p.kind == "return"]
+    ok = bool(rets)
+    why = ""
+    for p in rets:
+        v = p.value
+        if not (is_lit(v, "dict") and {k for k, _v in v[2]} == {C("signatures"), C("signed")}):
+            ok, why = False, "returns %s, not a fresh two-field dict" % show(v)[:80]
+            break
+        d = dict(v[2])
+        if not payload_is_isolated(p, d[C("signed")], obj):
+            ok, why = False, "payload is %s, not copy.deepcopy(argument): later changes to either side affect the other" % show(d[C("signed")])[:80]
+            break
+        if not (is_lit(d[C("signatures")], "dict") and len(d[C("signatures")][2]) == 0):
+            ok, why = False, "signatures is not a fresh empty dict"
+            break
+    ctx.ob(rule, "wrap-deepcopy", fn_site(eng, sm).loc(), "wrap_as_signable " + ("returns {'signatures': {}, 'signed': deepcopy(obj)} on every path" if ok else why), ok)
